@@ -184,3 +184,896 @@ Section RingLemmas.
     transitivity (D +' S0 +' nopp S0); [ring|]. rewrite E'. ring.
   Qed.
 End RingLemmas.
+
+(* ---------------------------------------------------------------------------------------------- *)
+(* element numbers of the layered coordinates                                                       *)
+Section KeyFacts.
+  Variables (g : grid) (dl dx : Z).
+  Hypothesis Hwf : wf g.
+  Hypothesis Hdl : 0 <= dl <= 2.
+  Hypothesis Hdx : dx = 1 \/ dx = -1.
+
+  Definition inl (p : Z * Z) : Prop := 0 <= fst p < n1 g dl /\ 0 <= snd p < n2 g dl.
+
+  Lemma in_layer_iff p : In p (layer g dl) <-> inl p.
+  Proof. destruct p as (a, b). unfold layer, inl. apply in_entire_layer. Qed.
+
+  Lemma in_layer_b p : in_layer g dl p = true <-> inl p.
+  Proof. unfold in_layer, inl. apply inside_iff. Qed.
+
+  Lemma nlay_pos : 1 <= nlay g dl.
+  Proof.
+    destruct Hwf as (Hx & Hy & Hz). pose proof (nz1_pos g Hwf). unfold nlay, zth, size3.
+    assert (dl = 0 \/ dl = 1 \/ dl = 2) as [-> | [-> | ->]] by lia; simpl; lia.
+  Qed.
+
+  Lemma lkey_range L p : 0 <= L < nlay g dl -> inl p -> 0 <= lkey g dl L p < nel g.
+  Proof.
+    intros HL (Ha & Hb). unfold lkey. apply (elnum3_range g dl (o1 g dl) (o2 g dl)); auto.
+    - apply dir_orth_valid; auto.
+    - split; [exact HL | split; auto].
+  Qed.
+
+  Lemma lkey_inj L p L' p' : 0 <= L < nlay g dl -> 0 <= L' < nlay g dl -> inl p -> inl p' ->
+    lkey g dl L p = lkey g dl L' p' -> L = L' /\ p = p'.
+  Proof.
+    intros HL HL' (Ha & Hb) (Ha' & Hb') E. unfold lkey in E.
+    apply (elnum3_inj g dl (o1 g dl) (o2 g dl)) in E as (E1 & E2 & E3); auto.
+    - split; auto. destruct p, p'; cbn in *; congruence.
+    - apply dir_orth_valid; auto.
+    - split; [exact HL | split; auto].
+    - split; [exact HL' | split; auto].
+  Qed.
+
+  Lemma lkey_surj e : 0 <= e < nel g -> exists L p, 0 <= L < nlay g dl /\ inl p /\ lkey g dl L p = e.
+  Proof.
+    intros He. destruct (elnum3_surj g dl (o1 g dl) (o2 g dl) e Hwf (dir_orth_valid g dl Hdl) He) as (L & a & b & (HL & Ha & Hb) & E).
+    exists L, (a, b). split; [exact HL|]. split; [split; assumption | exact E].
+  Qed.
+
+  Lemma physr l : 0 <= l < nlay g dl -> 0 <= phys g dl dx l < nlay g dl.
+  Proof. intros Hl. unfold phys. dxsplit Hdx; lia. Qed.
+  Lemma phys_eq l l' : phys g dl dx l = phys g dl dx l' -> l = l'.
+  Proof. unfold phys. destruct (dx >=? 0); lia. Qed.
+  Lemma phys_pred l : phys g dl dx l - dx = phys g dl dx (l - 1).
+  Proof. unfold phys. dxsplit Hdx; lia. Qed.
+  Lemma phys_succ l : phys g dl dx l + dx = phys g dl dx (l + 1).
+  Proof. unfold phys. dxsplit Hdx; lia. Qed.
+
+  Lemma layer_keys_NoDup L : 0 <= L < nlay g dl -> NoDup (map (lkey g dl L) (layer g dl)).
+  Proof.
+    intros HL. apply NoDup_map_inj_in; [|apply entire_layer_NoDup].
+    intros p q Hp Hq E. apply in_layer_iff in Hp, Hq. apply (lkey_inj L p L q) in E; tauto.
+  Qed.
+
+  Lemma padd_inj p q o : padd p o = padd q o -> p = q.
+  Proof. destruct p, q, o. unfold padd; cbn. intros E. inversion E. f_equal; lia. Qed.
+
+  Lemma shifted_keys_NoDup L o : 0 <= L < nlay g dl ->
+    NoDup (map (fun p => lkey g dl L (padd p o)) (filter (fun p => in_layer g dl (padd p o)) (layer g dl))).
+  Proof.
+    intros HL. apply NoDup_map_inj_in; [|apply NoDup_filter, entire_layer_NoDup].
+    intros p q Hp Hq E. apply filter_In in Hp as (_ & Hp), Hq as (_ & Hq). apply in_layer_b in Hp, Hq.
+    apply (lkey_inj L _ L _) in E; auto. apply (padd_inj p q o). tauto.
+  Qed.
+
+  (* the physical layer numbers of the layers t, t+1, ..., t+n-1 counted from the base plate *)
+  Fixpoint lays (t n : nat) : list Z :=
+    match n with O => [] | S m => phys g dl dx (Z.of_nat t) :: lays (S t) m end.
+
+  Lemma lays_snoc t n : lays t (S n) = lays t n ++ [phys g dl dx (Z.of_nat (t + n))].
+  Proof.
+    revert t; induction n as [|n IH]; intros t.
+    - cbn. rewrite Nat.add_0_r. reflexivity.
+    - change (lays t (S (S n))) with (phys g dl dx (Z.of_nat t) :: lays (S t) (S n)). rewrite IH.
+      cbn. replace (t + S n)%nat with (S (t + n)) by lia. reflexivity.
+  Qed.
+
+  (* the loop of _response visits the layers 1, 2, ..., nlay-1 (counted from the base plate) in this order *)
+  Lemma up_loop_unroll {St : Type} (step : St -> Z -> St) fuel : forall (t : nat) st,
+    (1 <= t)%nat -> Z.of_nat t <= nlay g dl -> nlay g dl - Z.of_nat t <= Z.of_nat fuel ->
+    up_loop step (nlay g dl) dx fuel st (phys g dl dx (Z.of_nat t)) =
+    fold_left step (lays t (Z.to_nat (nlay g dl - Z.of_nat t))) st.
+  Proof.
+    induction fuel as [|f IH]; intros t st Ht1 Ht Hf.
+    - cbn [up_loop]. replace (Z.to_nat (nlay g dl - Z.of_nat t)) with O by lia. reflexivity.
+    - cbn [up_loop].
+      assert (Etest : ((0 <=? phys g dl dx (Z.of_nat t)) && (phys g dl dx (Z.of_nat t) <? nlay g dl)) = (Z.of_nat t <=? nlay g dl - 1)).
+      { unfold phys. dxsplit Hdx;
+        destruct (Z.of_nat t <=? nlay g dl - 1) eqn:E; rewrite ?andb_true_iff, ?andb_false_iff, ?Z.leb_le, ?Z.leb_gt, ?Z.ltb_lt, ?Z.ltb_ge in *; lia. }
+      rewrite Etest. destruct (Z.of_nat t <=? nlay g dl - 1) eqn:E.
+      + apply Z.leb_le in E. rewrite phys_succ. replace (Z.of_nat t + 1) with (Z.of_nat (S t)) by lia.
+        rewrite IH by lia.
+        replace (Z.to_nat (nlay g dl - Z.of_nat t)) with (S (Z.to_nat (nlay g dl - Z.of_nat (S t)))) by lia.
+        reflexivity.
+      + apply Z.leb_gt in E. replace (Z.to_nat (nlay g dl - Z.of_nat t)) with O by lia. reflexivity.
+  Qed.
+
+  Lemma ind_start_phys : ind_start g dl dx = phys g dl dx (Z.of_nat 1).
+  Proof. unfold ind_start, phys. dxsplit Hdx; lia. Qed.
+
+  Lemma up_loop_layers {St : Type} (step : St -> Z -> St) st :
+    up_loop step (nlay g dl) dx (Z.to_nat (nlay g dl)) st (ind_start g dl dx) =
+    fold_left step (lays 1 (Z.to_nat (nlay g dl - 1))) st.
+  Proof.
+    pose proof nlay_pos. rewrite ind_start_phys, up_loop_unroll by lia. reflexivity.
+  Qed.
+
+  Lemma list_eq_get {K : Type} (d : K) (a b : list K) : Z.of_nat (length a) = nel g -> length b = length a ->
+    (forall L p, 0 <= L < nlay g dl -> inl p -> getT d a (lkey g dl L p) = getT d b (lkey g dl L p)) -> a = b.
+  Proof.
+    intros Ha Hb E. apply (nth_ext a b d d); [auto|].
+    intros i Hi. destruct (lkey_surj (Z.of_nat i) ltac:(lia)) as (L & p & HL & Hp & Ek).
+    specialize (E L p HL Hp). rewrite Ek in E. unfold getT in E. rewrite Nat2Z.id in E. exact E.
+  Qed.
+End KeyFacts.
+
+(* ---------------------------------------------------------------------------------------------- *)
+(* (A) the reverse sweep is the adjoint of the tangent sweep                                        *)
+Section AlgebraicAdjoint.
+  Context {K : Type} `{Num K}.
+  Hypothesis Rth : ring_theory (@nzero K _) none_ nadd nmul nsub nopp (@eq K).
+  Add Ring KringOvhB : Rth.
+  Infix "+'" := nadd (at level 50, left associativity).
+  Infix "*'" := nmul (at level 40, left associativity).
+  Notation "0'" := nzero.
+
+  Variables dmin_x dmin_s dmax : K -> K -> K.
+  Variables (g : grid) (dl dx nsamp : Z).
+  Hypothesis Hwf : wf g.
+  Hypothesis Hdl : 0 <= dl <= 2.
+  Hypothesis Hdx : dx = 1 \/ dx = -1.
+  Variables x yp sm : list K.                 (* input, printed densities, stored smooth maxima: ANY arrays *)
+  Variable v : list K.
+  Hypothesis Hv : Z.of_nat (length v) = nel g.
+
+  Let NL := nlay g dl.
+  Let lay := layer g dl.
+  Let offs := layer_offsets nsamp.
+  Let key := lkey g dl.
+  Let ph := phys g dl dx.
+  Let okp := fun (p o : Z * Z) => in_layer g dl (padd p o).
+  Let tstep := tangent_step dmin_x dmin_s dmax g dl dx nsamp x yp sm v.
+  Let slayer := sens_layer dmin_x dmin_s dmax g dl dx nsamp x yp sm.
+  Let A := fun L p => dmin_x (gk x (key L p)) (gk sm (key L p)).
+  Let Sm := fun L p => dmin_s (gk x (key L p)) (gk sm (key L p)).
+  Let B := fun L p o => dmax (gk sm (key L p)) (gk yp (key (L - dx) (padd p o))).
+
+  Lemma tstep_length t L : length (tstep t L) = length t.
+  Proof. unfold tstep, tangent_step. apply scatter_length. Qed.
+
+  Lemma fold_tstep_length ls t : length (fold_left tstep ls t) = length t.
+  Proof. revert t; induction ls as [|L ls IH]; intros t; cbn [fold_left]; auto. rewrite IH. apply tstep_length. Qed.
+
+  (* ---- the tangent sweep in layered coordinates: T_0 = t0 on the base layer,
+          T_l(p) = dmin_x v_l(p) + dmin_s sum_o dmax T_{l-1}(p+o)                                  ---- *)
+  Fixpoint TS (t0 : list K) (l : nat) (p : Z * Z) : K :=
+    match l with
+    | O => gk t0 (key (ph 0) p)
+    | S l' => A (ph (Z.of_nat l)) p *' gk v (key (ph (Z.of_nat l)) p) +'
+              Sm (ph (Z.of_nat l)) p *'
+                nsum (map (fun o => B (ph (Z.of_nat l)) p o *' TS t0 l' (padd p o)) (filter (okp p) offs))
+    end.
+
+  Lemma TS_base_ext t0 t0' : (forall p, inl g dl p -> gk t0 (key (ph 0) p) = gk t0' (key (ph 0) p)) ->
+    forall l p, inl g dl p -> TS t0 l p = TS t0' l p.
+  Proof.
+    intros E. induction l as [|l IH]; intros p Hp; cbn [TS]; auto.
+    f_equal. f_equal. apply nsum_map_ext. intros o Ho. apply filter_In in Ho as (_ & Ho).
+    f_equal. apply IH. apply in_layer_b. exact Ho.
+  Qed.
+
+  Lemma tangent_inv t0 : Z.of_nat (length t0) = nel g -> forall n : nat, Z.of_nat n <= NL - 1 ->
+    forall l p, 0 <= l < NL -> inl g dl p ->
+      gk (fold_left tstep (lays g dl dx 1 n) t0) (key (ph l) p) =
+      if l <=? Z.of_nat n then TS t0 (Z.to_nat l) p else gk t0 (key (ph l) p).
+  Proof.
+    intros Ht0. induction n as [|n IH]; intros Hn l p Hl Hp.
+    - cbn [lays fold_left]. destruct (l <=? Z.of_nat 0) eqn:E; auto.
+      apply Z.leb_le in E. assert (l = 0) as -> by lia. reflexivity.
+    - rewrite lays_snoc, fold_left_app. cbn [fold_left].
+      set (tn := fold_left tstep (lays g dl dx 1 n) t0) in *.
+      assert (Hlen : Z.of_nat (length tn) = nel g) by (unfold tn; rewrite fold_tstep_length; auto).
+      set (L := phys g dl dx (Z.of_nat (1 + n))).
+      assert (HL : 0 <= L < nlay g dl) by (apply physr; auto; fold NL; lia).
+      unfold tstep at 1, tangent_step. fold lay. fold key.
+      destruct (Z.eq_dec l (Z.of_nat (1 + n))) as [-> | Hne].
+      + change (ph (Z.of_nat (1 + n))) with L.
+        replace (Z.of_nat (1 + n) <=? Z.of_nat (S n)) with true by (symmetry; apply Z.leb_le; lia).
+        unfold gk at 1. rewrite (scatter_hit 0' (key L) _ lay tn p).
+        * rewrite Nat2Z.id. cbn [TS plus]. unfold tangent_value. fold key. fold L. fold ph.
+          change (ph (Z.of_nat (S n))) with L. unfold A, Sm, B. fold offs. unfold okp.
+          f_equal. f_equal. apply nsum_map_ext. intros o Ho. apply filter_In in Ho as (_ & Ho). apply in_layer_b in Ho.
+          cbv zeta. f_equal.
+          assert (EL : L - dx = ph (Z.of_nat n)).
+          { unfold L, ph. rewrite phys_pred by auto. f_equal. lia. }
+          rewrite EL. unfold tn. rewrite IH by (auto; lia). rewrite Z.leb_refl. rewrite Nat2Z.id. reflexivity.
+        * apply in_layer_iff. exact Hp.
+        * intros q Hq. apply in_layer_iff in Hq. rewrite Hlen. apply lkey_range; auto.
+        * intros q Hq E. apply in_layer_iff in Hq. apply (lkey_inj g dl Hwf Hdl L q L p) in E as (_ & ->); auto.
+      + unfold gk at 1. rewrite (scatter_other 0'). fold (gk tn (key (ph l) p)).
+        * unfold tn. rewrite IH by (auto; lia).
+          destruct (l <=? Z.of_nat n) eqn:E1, (l <=? Z.of_nat (S n)) eqn:E2; auto;
+            rewrite ?Z.leb_le, ?Z.leb_gt in *; lia.
+        * apply lkey_range; auto. apply physr; auto.
+        * intros q Hq. apply in_layer_iff in Hq. split; [apply lkey_range; auto|].
+          intros E. apply (lkey_inj g dl Hwf Hdl) in E as (E & _); auto; [|apply physr; auto].
+          apply phys_eq in E. lia.
+  Qed.
+
+  (* ---- one layer of the reverse sweep against one layer of the tangent sweep ---- *)
+  Lemma acc_length c L gc o : length (accumulate_offset dmax g dl dx yp sm c L gc o) = length gc.
+  Proof. unfold accumulate_offset. apply scatter_length. Qed.
+
+  Lemma acc_fold_length c L os gc : length (fold_left (accumulate_offset dmax g dl dx yp sm c L) os gc) = length gc.
+  Proof. revert gc; induction os as [|o os IH]; intros gc; cbn [fold_left]; auto. rewrite IH. apply acc_length. Qed.
+
+  Lemma acc_fold_dot c L t os : 0 <= L - dx < NL -> forall gc, Z.of_nat (length gc) = nel g -> length t = length gc ->
+    dot (fold_left (accumulate_offset dmax g dl dx yp sm c L) os gc) t =
+    dot gc t +' nsum (map (fun o => nsum (map (fun p => (c p *' B L p o) *' gk t (key (L - dx) (padd p o)))
+                                               (filter (fun p => okp p o) lay))) os).
+  Proof.
+    intros HL. induction os as [|o os IH]; intros gc Hgc Ht; cbn [fold_left].
+    - rewrite nsum_map_nil. ring.
+    - rewrite IH by (rewrite acc_length; auto). rewrite nsum_map_cons.
+      unfold accumulate_offset. fold lay. fold key.
+      rewrite (scatter_add_dot Rth (fun p => key (L - dx) (padd p o))
+                 (fun p => c p *' dmax (gk sm (key L p)) (gk yp (key (L - dx) (padd p o))))).
+      + unfold B, okp. ring.
+      + apply (shifted_keys_NoDup g dl dx Hwf Hdl Hdx); auto.
+      + intros p Hp. apply filter_In in Hp as (_ & Hp). apply in_layer_b in Hp. rewrite Hgc. apply lkey_range; auto.
+      + auto.
+  Qed.
+
+  Lemma acc_fold_other c L os e : 0 <= L - dx < NL -> 0 <= e ->
+    (forall p, inl g dl p -> key (L - dx) p <> e) ->
+    forall gc, gk (fold_left (accumulate_offset dmax g dl dx yp sm c L) os gc) e = gk gc e.
+  Proof.
+    intros HL He Hne. induction os as [|o os IH]; intros gc; cbn [fold_left]; auto.
+    rewrite IH. unfold accumulate_offset, gk. apply scatter_other; auto.
+    intros p Hp. apply filter_In in Hp as (_ & Hp). apply in_layer_b in Hp. split.
+    - apply lkey_range; auto.
+    - apply Hne; auto.
+  Qed.
+
+  Lemma adj_step L t gz d : 0 <= L < NL -> 0 <= L - dx < NL ->
+    Z.of_nat (length t) = nel g -> Z.of_nat (length gz) = nel g -> Z.of_nat (length d) = nel g ->
+    (forall p, inl g dl p -> gk d (key L p) = 0') ->
+    (forall p, inl g dl p -> gk t (key L p) = 0') ->
+    dot gz (tstep t L) +' dot d v = dot (fst (slayer (gz, d) L)) t +' dot (snd (slayer (gz, d) L)) v.
+  Proof.
+    intros HL HL' Ht Hgz Hd Hd0 Ht0.
+    assert (Hrange : forall p, In p lay -> 0 <= key L p < nel g).
+    { intros p Hp. apply in_layer_iff in Hp. apply lkey_range; auto. }
+    (* tangent layer against gz *)
+    assert (E1 := scatter_dot_r Rth (key L) (tangent_value dmin_x dmin_s dmax g dl dx nsamp x yp sm v t L) lay t gz
+                    (layer_keys_NoDup g dl dx Hwf Hdl Hdx L HL) ltac:(intros p Hp; rewrite Ht; auto) ltac:(lia)).
+    rewrite (nsum_map_zero Rth (fun p => gk gz (key L p) *' gk t (key L p))) in E1.
+    2:{ intros p Hp. apply in_layer_iff in Hp. rewrite Ht0 by auto. ring. }
+    (* dx of the layer against v *)
+    assert (E2 := scatter_dot_l Rth (key L) (dx_value dmin_x g dl x sm gz L) lay d v
+                    (layer_keys_NoDup g dl dx Hwf Hdl Hdx L HL) ltac:(intros p Hp; rewrite Hd; auto) ltac:(lia)).
+    rewrite (nsum_map_zero Rth (fun p => gk d (key L p) *' gk v (key L p))) in E2.
+    2:{ intros p Hp. apply in_layer_iff in Hp. rewrite Hd0 by auto. ring. }
+    (* accumulation into the layer below against t *)
+    assert (E3 := acc_fold_dot (dfdsmax dmin_s g dl x sm gz L) L t offs HL' gz Hgz ltac:(lia)).
+    unfold slayer, sens_layer. cbn [fst snd]. fold offs. fold lay. fold key.
+    unfold tstep, tangent_step. fold lay. fold key.
+    rewrite E3.
+    set (D1 := dot gz (scatter_by (key L) (tangent_value dmin_x dmin_s dmax g dl dx nsamp x yp sm v t L) lay t)) in *.
+    set (D2 := dot (scatter_by (key L) (dx_value dmin_x g dl x sm gz L) lay d) v) in *.
+    (* the three sums *)
+    assert (Esum : nsum (map (fun p => gk gz (key L p) *' tangent_value dmin_x dmin_s dmax g dl dx nsamp x yp sm v t L p) lay) =
+                   nsum (map (fun p => dx_value dmin_x g dl x sm gz L p *' gk v (key L p)) lay) +'
+                   nsum (map (fun o => nsum (map (fun p => (dfdsmax dmin_s g dl x sm gz L p *' B L p o) *' gk t (key (L - dx) (padd p o)))
+                                                 (filter (fun p => okp p o) lay))) offs)).
+    { rewrite <- (nsum_swap_filter Rth okp (fun p o => (dfdsmax dmin_s g dl x sm gz L p *' B L p o) *' gk t (key (L - dx) (padd p o))) lay offs).
+      rewrite <- nsum_map_add by exact Rth. apply nsum_map_ext. intros p _.
+      unfold tangent_value, dx_value, dfdsmax. fold key. fold offs. cbv zeta.
+      rewrite (nsum_map_ext (fun b => gk gz (key L p) *' dmin_s (gk x (key L p)) (gk sm (key L p)) *' B L p b *' gk t (key (L - dx) (padd p b)))
+                 (fun b => (gk gz (key L p) *' dmin_s (gk x (key L p)) (gk sm (key L p))) *'
+                           (dmax (gk sm (key L p)) (gk yp (key (L - dx) (padd p b))) *' gk t (key (L - dx) (padd p b)))))
+        by (intros; unfold B; ring).
+      rewrite <- (nsum_map_mul_l Rth). unfold okp.
+      set (SS := nsum _). ring. }
+    rewrite Esum in E1.
+    set (S1 := nsum (map (fun p => dx_value dmin_x g dl x sm gz L p *' gk v (key L p)) lay)) in *.
+    set (S2 := nsum (map (fun o => nsum _) offs)) in *.
+    transitivity ((D1 +' 0') +' dot d v); [ring|]. rewrite E1.
+    transitivity (dot gz t +' S2 +' (D2 +' 0')); [|ring]. rewrite E2. ring.
+  Qed.
+
+  (* ---- the loop of _sensitivity visits the layers nlay-1, ..., 1 and stops with ind_layer at the base layer ---- *)
+  Lemma sens_loop_unroll fuel : forall (k : nat) st, (1 <= k)%nat -> Z.of_nat k <= NL - 1 -> (k <= fuel)%nat ->
+    sens_loop dmin_x dmin_s dmax g dl dx nsamp x yp sm fuel st (ph (Z.of_nat k)) =
+    (fold_left slayer (rev (lays g dl dx 1 k)) st, ph 0).
+  Proof.
+    induction fuel as [|f IH]; intros k st Hk1 Hk Hf; [lia|].
+    destruct k as [|k]; [lia|].
+    cbn [sens_loop]. fold slayer. unfold ph. rewrite phys_pred by auto. fold ph. fold NL.
+    replace (Z.of_nat (S k) - 1) with (Z.of_nat k) by lia.
+    rewrite lays_snoc, rev_app_distr. cbn [rev app fold_left]. replace (1 + k)%nat with (S k) by lia. fold ph.
+    assert (Etest : ((1 <=? ph (Z.of_nat k)) && (ph (Z.of_nat k) <? NL - 1)) = (1 <=? Z.of_nat k)).
+    { unfold ph, phys. fold NL. dxsplit Hdx;
+      destruct (1 <=? Z.of_nat k) eqn:E; rewrite ?andb_true_iff, ?andb_false_iff, ?Z.leb_le, ?Z.leb_gt, ?Z.ltb_lt, ?Z.ltb_ge in *; lia. }
+    rewrite Etest. destruct (1 <=? Z.of_nat k) eqn:E.
+    - apply Z.leb_le in E. apply IH; lia.
+    - apply Z.leb_gt in E. assert (k = O) as -> by lia. reflexivity.
+  Qed.
+
+  (* v restricted to the base layer *)
+  Let vb := scatter_by (key (ph 0)) (fun p => gk v (key (ph 0) p)) lay (vzero (length v)).
+  Let TZ := fun n => fold_left tstep (lays g dl dx 1 n) vb.
+
+  Lemma vb_length : Z.of_nat (length vb) = nel g.
+  Proof. unfold vb. rewrite scatter_length. unfold vzero. rewrite repeat_length. exact Hv. Qed.
+
+  Lemma NL_pos' : 1 <= NL.
+  Proof. apply nlay_pos; auto. Qed.
+
+  Lemma vb_base p : inl g dl p -> gk vb (key (ph 0) p) = gk v (key (ph 0) p).
+  Proof.
+    intros Hp. pose proof NL_pos'. unfold vb, gk at 1.
+    rewrite (scatter_hit 0' (key (ph 0)) (fun p => gk v (key (ph 0) p)) lay (vzero (length v)) p); auto.
+    - apply in_layer_iff; auto.
+    - intros q Hq. apply in_layer_iff in Hq. unfold vzero. rewrite repeat_length, Hv. apply lkey_range; auto. apply physr; auto. fold NL; lia.
+    - intros q Hq E. apply in_layer_iff in Hq. apply (lkey_inj g dl Hwf Hdl) in E as (_ & ->); auto; apply physr; auto; fold NL; lia.
+  Qed.
+
+  Lemma vb_above l p : 1 <= l < NL -> inl g dl p -> gk vb (key (ph l) p) = 0'.
+  Proof.
+    intros Hl Hp. unfold vb, gk. rewrite (scatter_other 0').
+    - apply nth_zeros.
+    - apply lkey_range; auto. apply physr; auto. fold NL; lia.
+    - intros q Hq. apply in_layer_iff in Hq. split; [apply lkey_range; auto; apply physr; auto; fold NL; lia|].
+      intros E. apply (lkey_inj g dl Hwf Hdl) in E as (E & _); auto; [| apply physr; auto; fold NL; lia | apply physr; auto; fold NL; lia].
+      apply phys_eq in E. lia.
+  Qed.
+
+  Lemma adj_main : forall n : nat, Z.of_nat n <= NL - 1 -> forall gz d,
+    Z.of_nat (length gz) = nel g -> Z.of_nat (length d) = nel g ->
+    (forall l p, 0 <= l <= Z.of_nat n -> inl g dl p -> gk d (key (ph l) p) = 0') ->
+    dot gz (TZ n) +' dot d v =
+      dot (fst (fold_left slayer (rev (lays g dl dx 1 n)) (gz, d))) vb +' dot (snd (fold_left slayer (rev (lays g dl dx 1 n)) (gz, d))) v
+    /\ Z.of_nat (length (snd (fold_left slayer (rev (lays g dl dx 1 n)) (gz, d)))) = nel g
+    /\ (forall p, inl g dl p -> gk (snd (fold_left slayer (rev (lays g dl dx 1 n)) (gz, d))) (key (ph 0) p) = 0').
+  Proof.
+    induction n as [|n IH]; intros Hn gz d Hgz Hd Hd0.
+    - cbn [lays rev fold_left fst snd]. unfold TZ. cbn [lays fold_left]. repeat split; auto.
+      intros p Hp. apply Hd0; auto. lia.
+    - rewrite lays_snoc, rev_app_distr. cbn [rev app fold_left].
+      set (L := phys g dl dx (Z.of_nat (1 + n))).
+      assert (HL : 0 <= L < NL) by (apply physr; auto; fold NL; lia).
+      assert (HL' : L - dx = ph (Z.of_nat n)).
+      { unfold L, ph. rewrite phys_pred by auto. f_equal. lia. }
+      assert (HL'r : 0 <= L - dx < NL) by (rewrite HL'; apply physr; auto; fold NL; lia).
+      assert (ETZ : TZ (S n) = tstep (TZ n) L).
+      { unfold TZ. rewrite lays_snoc, fold_left_app. reflexivity. }
+      assert (HTZlen : Z.of_nat (length (TZ n)) = nel g).
+      { unfold TZ. rewrite fold_tstep_length. apply vb_length. }
+      assert (Estep := adj_step L (TZ n) gz d HL HL'r HTZlen Hgz Hd).
+      rewrite ETZ, Estep.
+      + rewrite (surjective_pairing (slayer (gz, d) L)).
+        apply IH.
+        * lia.
+        * unfold slayer, sens_layer. cbn [fst]. rewrite acc_fold_length. exact Hgz.
+        * unfold slayer, sens_layer. cbn [snd]. rewrite scatter_length. exact Hd.
+        * intros l p Hl Hp. unfold slayer, sens_layer. cbn [snd]. unfold gk. rewrite (scatter_other 0').
+          -- apply Hd0; auto. lia.
+          -- apply lkey_range; auto. apply physr; auto. fold NL; lia.
+          -- intros q Hq. apply in_layer_iff in Hq. split; [apply lkey_range; auto|].
+             intros E. apply (lkey_inj g dl Hwf Hdl) in E as (E & _); auto; [| apply physr; auto; fold NL; lia].
+             apply phys_eq in E. lia.
+      + intros p Hp. apply Hd0; auto. lia.
+      + intros p Hp. unfold TZ. fold key. change L with (ph (Z.of_nat (1 + n))).
+        rewrite (tangent_inv vb vb_length n) by (auto; lia).
+        replace (Z.of_nat (1 + n) <=? Z.of_nat n) with false by (symmetry; apply Z.leb_gt; lia).
+        apply vb_above; auto. lia.
+  Qed.
+
+  Lemma tangent_from_base_only : fold_left tstep (lays g dl dx 1 (Z.to_nat (NL - 1))) v = TZ (Z.to_nat (NL - 1)).
+  Proof.
+    pose proof NL_pos' as Hpos.
+    apply (list_eq_get g dl Hwf Hdl 0').
+    - rewrite fold_tstep_length. exact Hv.
+    - unfold TZ. rewrite !fold_tstep_length. pose proof vb_length. lia.
+    - intros L p HL Hp. fold NL in HL.
+      assert (EL : L = ph (ph L)) by (unfold ph; rewrite phys_invol; reflexivity).
+      assert (HphL : 0 <= ph L < NL) by (apply physr; auto).
+      rewrite EL. fold key. fold (gk (fold_left tstep (lays g dl dx 1 (Z.to_nat (NL - 1))) v) (key (ph (ph L)) p)).
+      fold (gk (TZ (Z.to_nat (NL - 1))) (key (ph (ph L)) p)). unfold TZ.
+      rewrite (tangent_inv v Hv) by (auto; lia). rewrite (tangent_inv vb vb_length) by (auto; lia).
+      replace (ph L <=? Z.of_nat (Z.to_nat (NL - 1))) with true by (symmetry; apply Z.leb_le; lia).
+      apply TS_base_ext; auto. intros q Hq. symmetry. apply vb_base; auto.
+  Qed.
+
+  (* <w, tangent_sweep v> = <sens_sweep w, v> *)
+  Theorem sens_sweep_adjoint w : Z.of_nat (length w) = nel g ->
+    dot w (tangent_sweep dmin_x dmin_s dmax g dl dx nsamp x yp sm v) =
+    dot (sens_sweep dmin_x dmin_s dmax g dl dx nsamp x yp sm w) v.
+  Proof.
+    intros Hw. pose proof NL_pos' as Hpos.
+    unfold tangent_sweep, tangent_from. fold tstep. rewrite (up_loop_layers g dl dx Hwf Hdl Hdx). fold NL.
+    unfold sens_sweep. fold NL. destruct (NL <? 2) eqn:E2.
+    - apply Z.ltb_lt in E2. replace (Z.to_nat (NL - 1)) with O by lia. reflexivity.
+    - apply Z.ltb_ge in E2. rewrite tangent_from_base_only.
+      set (n := Z.to_nat (NL - 1)).
+      assert (Estart : (if dx >=? 0 then NL - 1 else 0) = ph (Z.of_nat n)).
+      { unfold ph, phys, n. fold NL. dxsplit Hdx; lia. }
+      rewrite Estart, sens_loop_unroll by (unfold n; lia). cbn [fst snd].
+      destruct (adj_main n ltac:(unfold n; lia) w (vzero (length w)) Hw) as (E & Hlen & Hbase).
+      { unfold vzero. rewrite repeat_length. exact Hw. }
+      { intros l p _ _. apply nth_zeros. }
+      set (st := fold_left slayer (rev (lays g dl dx 1 n)) (w, vzero (length w))) in *.
+      fold lay. fold key.
+      assert (Hb : 0 <= ph 0 < nlay g dl) by (apply physr; auto; fold NL; lia).
+      assert (Hrange : forall p, In p lay -> 0 <= key (ph 0) p < nel g).
+      { intros p Hp. apply in_layer_iff in Hp. apply lkey_range; auto. }
+      assert (F1 := scatter_dot_l Rth (key (ph 0)) (fun p => gk (fst st) (key (ph 0) p)) lay (snd st) v
+                      (layer_keys_NoDup g dl dx Hwf Hdl Hdx (ph 0) Hb) ltac:(intros p Hp; rewrite Hlen; auto) ltac:(lia)).
+      rewrite (nsum_map_zero Rth (fun p => gk (snd st) (key (ph 0) p) *' gk v (key (ph 0) p))) in F1.
+      2:{ intros p Hp. apply in_layer_iff in Hp. rewrite Hbase by auto. ring. }
+      assert (F2 := scatter_dot_r Rth (key (ph 0)) (fun p => gk v (key (ph 0) p)) lay (vzero (length v)) (fst st)
+                      (layer_keys_NoDup g dl dx Hwf Hdl Hdx (ph 0) Hb)).
+      fold vb in F2.
+      assert (Hfst : length (fst st) = length w).
+      { unfold st. clear. generalize (rev (lays g dl dx 1 n)) as ls. generalize (vzero (length w)) as d0. generalize w as gz.
+        intros gz d0 ls; revert gz d0. induction ls as [|L ls IHl]; intros gz d0; cbn [fold_left fst]; auto.
+        rewrite (surjective_pairing (slayer (gz, d0) L)). rewrite IHl. unfold slayer, sens_layer. cbn [fst]. apply acc_fold_length. }
+      specialize (F2 ltac:(intros p Hp; unfold vzero; rewrite repeat_length, Hv; auto)
+                     ltac:(unfold vzero; rewrite repeat_length; lia)).
+      rewrite (nsum_map_zero Rth (fun p => gk (fst st) (key (ph 0) p) *' gk (vzero (length v)) (key (ph 0) p))) in F2.
+      2:{ intros p Hp. unfold gk at 2, getT. rewrite nth_zeros. ring. }
+      rewrite (dot_comm Rth (fst st) (vzero (length v))), (dot_zeros_l Rth) in F2.
+      rewrite (dot_zeros_l Rth) in E.
+      set (D := dot (scatter_by (key (ph 0)) (fun p => gk (fst st) (key (ph 0) p)) lay (snd st)) v) in *.
+      set (S0 := nsum (map (fun p => gk (fst st) (key (ph 0) p) *' gk v (key (ph 0) p)) lay)) in *.
+      transitivity (dot w (TZ n) +' 0'); [ring|]. rewrite E.
+      transitivity ((dot (fst st) vb +' 0') +' dot (snd st) v); [ring|]. rewrite F2.
+      transitivity (D +' 0'); [|ring]. rewrite F1. ring.
+  Qed.
+End AlgebraicAdjoint.
+
+(* ---------------------------------------------------------------------------------------------- *)
+(* what _response stores: xprint is the sweep of Model/Overhang.v, self.smax holds the smooth maxima  *)
+Section Sweep2Facts.
+  Context {K : Type} `{Num K}.
+  Variable smin : K -> K -> K.
+  Variable smax : list K -> K.
+  Variables (g : grid) (dl dx nsamp : Z) (x : list K).
+  Hypothesis Hwf : wf g.
+  Hypothesis Hdl : 0 <= dl <= 2.
+  Hypothesis Hdx : dx = 1 \/ dx = -1.
+  Hypothesis Hlen : Z.of_nat (length x) = nel g.
+
+  Let NL := nlay g dl.
+  Let key := lkey g dl.
+  Let ph := phys g dl dx.
+  Let step2 := layer_step2 smin smax g dl dx nsamp x.
+  Let Y := spec smin smax nzero g dl dx nsamp x.
+
+  Lemma fst_sweep2_loop fuel : forall st ind,
+    fst (up_loop step2 (nlay g dl) dx fuel st ind) = sweep_loop smin smax nzero g dl dx nsamp fuel x (fst st) ind.
+  Proof.
+    induction fuel as [|f IH]; intros st ind; cbn [up_loop sweep_loop]; auto.
+    destruct ((0 <=? ind) && (ind <? nlay g dl)); auto. rewrite IH. reflexivity.
+  Qed.
+
+  Lemma fst_sweep2 : fst (sweep2 smin smax g dl dx nsamp x) = sweep smin smax nzero g dl dx nsamp x.
+  Proof. unfold sweep2, sweep. fold step2. apply fst_sweep2_loop. Qed.
+
+  Definition smax_below (l : Z) (p : Z * Z) : K :=
+    smax (map (fun o => Y (Z.to_nat (l - 1)) (padd p o)) (filter (fun o => in_layer g dl (padd p o)) (layer_offsets nsamp))).
+
+  Lemma sweep2_inv : forall n : nat, Z.of_nat n <= NL - 1 ->
+    Inv smin smax nzero g dl dx nsamp x (Z.of_nat n) (fst (fold_left step2 (lays g dl dx 1 n) (x, x))) /\
+    length (snd (fold_left step2 (lays g dl dx 1 n) (x, x))) = length x /\
+    forall l p, 1 <= l <= Z.of_nat n -> inl g dl p ->
+      gk (snd (fold_left step2 (lays g dl dx 1 n) (x, x))) (key (ph l) p) = smax_below l p.
+  Proof.
+    induction n as [|n IH]; intros Hn.
+    - cbn [lays fold_left fst snd]. split; [apply inv_init|]. split; auto. intros; lia.
+    - destruct IH as (HI & HL2 & HS); [lia|].
+      rewrite lays_snoc, fold_left_app. cbn [fold_left].
+      set (st := fold_left step2 (lays g dl dx 1 n) (x, x)) in *.
+      set (L := phys g dl dx (Z.of_nat (1 + n))).
+      assert (HLr : 0 <= L < nlay g dl) by (apply physr; auto; fold NL; lia).
+      unfold step2, layer_step2. cbn [fst snd].
+      split; [|split].
+      + assert (Hs := inv_step smin smax nzero g dl dx nsamp x Hwf Hdl Hdx Hlen (Z.of_nat (S n)) (fst st) ltac:(fold NL; lia)).
+        replace (Z.of_nat (S n) - 1) with (Z.of_nat n) in Hs by lia. specialize (Hs HI). exact Hs.
+      + rewrite scatter_length. exact HL2.
+      + intros l p Hl Hp. fold key. destruct (Z.eq_dec l (Z.of_nat (1 + n))) as [-> | Hne].
+        * change (ph (Z.of_nat (1 + n))) with L. unfold gk.
+          rewrite (scatter_hit nzero (key L) _ (layer g dl) (snd st) p).
+          -- unfold smax_below. f_equal. unfold supports. apply map_ext_in. intros o Ho.
+             apply filter_In in Ho as (_ & Ho). apply inside_iff in Ho as (Ha & Hb).
+             assert (EL : L - dx = phys g dl dx (Z.of_nat n)).
+             { unfold L. rewrite phys_pred by auto. f_equal. lia. }
+             rewrite EL. destruct HI as (_ & HI).
+             fold (coord g dl dx (Z.of_nat n) (fst (padd p o)) (snd (padd p o))).
+             rewrite HI by (auto; fold NL; lia). rewrite Z.leb_refl. rewrite Nat2Z.id.
+             replace (Z.to_nat (Z.of_nat (1 + n) - 1)) with n by lia. destruct (padd p o); reflexivity.
+          -- apply in_layer_iff. exact Hp.
+          -- intros q Hq. apply in_layer_iff in Hq. rewrite HL2, Hlen. apply lkey_range; auto.
+          -- intros q Hq E. apply in_layer_iff in Hq. apply (lkey_inj g dl Hwf Hdl L q L p) in E as (_ & ->); auto.
+        * unfold gk. rewrite (scatter_other nzero).
+          -- apply HS; auto. lia.
+          -- apply lkey_range; auto. apply physr; auto. fold NL; lia.
+          -- intros q Hq. apply in_layer_iff in Hq. split; [apply lkey_range; auto|].
+             intros E. apply (lkey_inj g dl Hwf Hdl) in E as (E & _); auto; [| apply physr; auto; fold NL; lia].
+             apply phys_eq in E. lia.
+  Qed.
+
+  Theorem sweep2_smax l p : 1 <= l < NL -> inl g dl p ->
+    gk (snd (sweep2 smin smax g dl dx nsamp x)) (key (ph l) p) = smax_below l p.
+  Proof.
+    intros Hl Hp. unfold sweep2. fold step2. rewrite (up_loop_layers g dl dx Hwf Hdl Hdx). fold NL.
+    destruct (sweep2_inv (Z.to_nat (NL - 1)) ltac:(lia)) as (_ & _ & HS). apply HS; auto. lia.
+  Qed.
+
+  Theorem sweep2_xprint l p : 0 <= l < NL -> inl g dl p ->
+    gk (fst (sweep2 smin smax g dl dx nsamp x)) (key (ph l) p) = Y (Z.to_nat l) p.
+  Proof.
+    intros Hl (Ha & Hb). rewrite fst_sweep2. destruct p as (a, b).
+    apply (sweep_refines_spec smin smax nzero g dl dx nsamp x Hwf Hdl Hdx Hlen); auto.
+  Qed.
+
+  Lemma sweep2_lengths : length (fst (sweep2 smin smax g dl dx nsamp x)) = length x /\ length (snd (sweep2 smin smax g dl dx nsamp x)) = length x.
+  Proof.
+    split; [rewrite fst_sweep2; apply sweep_length; auto|].
+    unfold sweep2. fold step2. rewrite (up_loop_layers g dl dx Hwf Hdl Hdx). fold NL.
+    pose proof (nlay_pos g dl Hwf Hdl) as Hpos. fold NL in Hpos. destruct (sweep2_inv (Z.to_nat (NL - 1)) ltac:(lia)) as (_ & HL2 & _). exact HL2.
+  Qed.
+End Sweep2Facts.
+
+(* ---------------------------------------------------------------------------------------------- *)
+(* (B) over R: the tangent sweep is the directional derivative of the response sweep               *)
+From Coquelicot Require Import Coquelicot.
+Open Scope R_scope.
+
+Lemma rpower_comp_derive (f : R -> R) (d a : R) : is_derive f 0 d -> 0 < f 0 ->
+  is_derive (fun t => Rpower (f t) a) 0 (a * Rpower (f 0) (a - 1) * d).
+Proof.
+  intros Hf Hpos. unfold Rpower.
+  auto_derive.
+  - split; [exists d; exact Hf|]. split; auto.
+  - replace (Derive (fun x => f x) 0) with d by (symmetry; apply is_derive_unique; exact Hf).
+    assert (E : exp ((a - 1) * ln (f 0)) = exp (a * ln (f 0)) / f 0).
+    { replace ((a - 1) * ln (f 0)) with (a * ln (f 0) + - ln (f 0)) by ring.
+      rewrite exp_plus, exp_Ropp, exp_ln by auto. reflexivity. }
+    rewrite E. field. lra.
+Qed.
+
+Lemma smin_derive eps (a s : R -> R) (a' s' : R) : is_derive a 0 a' -> is_derive s 0 s' ->
+  0 < (a 0 - s 0) * (a 0 - s 0) + eps ->
+  is_derive (fun t => smin_R eps (a t) (s t)) 0 (dmin_x_R eps (a 0) (s 0) * a' + dmin_s_R eps (a 0) (s 0) * s').
+Proof.
+  intros Ha Hs Hpos. unfold smin_R, dmin_x_R, dmin_s_R.
+  auto_derive.
+  - assert (Ea : ex_derive (fun x => a x) 0) by (exists a'; exact Ha).
+    assert (Es : ex_derive (fun x => s x) 0) by (exists s'; exact Hs).
+    repeat split; auto.
+  - replace (Derive (fun x => a x) 0) with a' by (symmetry; apply is_derive_unique; exact Ha).
+    replace (Derive (fun x => s x) 0) with s' by (symmetry; apply is_derive_unique; exact Hs).
+    assert (Hsq : sqrt ((a 0 - s 0) * (a 0 - s 0) + eps) <> 0) by (apply Rgt_not_eq, sqrt_lt_R0; exact Hpos).
+    unfold Rminus in *. field. exact Hsq.
+Qed.
+
+Lemma rsum_scal c {O} (h : O -> R) os : c * rsum (map h os) = rsum (map (fun o => c * h o) os).
+Proof. induction os as [|o os IH]; cbn [map rsum fold_right]; [ring|]. fold (rsum (map h os)) (rsum (map (fun o => c * h o) os)). rewrite <- IH. ring. Qed.
+
+Lemma rsum_pow_derive {O} (os : list O) (f : O -> R -> R) (d : O -> R) p shift :
+  (forall o, In o os -> is_derive (f o) 0 (d o) /\ 0 < f o 0 + shift) ->
+  is_derive (fun t => rsum (map (fun o => Rpower (f o t + shift) p) os)) 0
+            (rsum (map (fun o => p * Rpower (f o 0 + shift) (p - 1) * d o) os)).
+Proof.
+  induction os as [|o os IH]; intros Hf; cbn [map rsum fold_right].
+  - apply (is_derive_const (K := R_AbsRing) (V := R_NormedModule) 0 0).
+  - apply (is_derive_plus (K := R_AbsRing) (V := R_NormedModule) (fun t => Rpower (f o t + shift) p)
+                          (fun t => fold_right Rplus 0 (map (fun o0 => Rpower (f o0 t + shift) p) os))).
+    + destruct (Hf o (or_introl eq_refl)) as (Hd & Hpos).
+      apply (rpower_comp_derive (fun t => f o t + shift)); auto.
+      auto_derive; [exists (d o); exact Hd|].
+      replace (Derive (fun x => f o x) 0) with (d o) by (symmetry; apply is_derive_unique; exact Hd). ring.
+    + apply IH. intros o' Ho'. apply Hf. right; auto.
+Qed.
+
+Lemma smax_derive {O} (os : list O) (f : O -> R -> R) (d : O -> R) p q shift backshift :
+  q <> 0 ->
+  (forall o, In o os -> is_derive (f o) 0 (d o) /\ 0 < f o 0 + shift) ->
+  0 < rsum (map (fun o => Rpower (f o 0 + shift) p) os) ->
+  is_derive (fun t => smax_R p q shift backshift (map (fun o => f o t) os)) 0
+            (rsum (map (fun o => dmax_R p q shift backshift (smax_R p q shift backshift (map (fun o => f o 0) os)) (f o 0) * d o) os)).
+Proof.
+  intros Hq Hf Hkeep. unfold smax_R.
+  set (keep := fun t => rsum (map (fun o => Rpower (f o t + shift) p) os)).
+  apply (is_derive_ext (fun t => Rpower (keep t) (1 / q) - backshift)).
+  { intros t. unfold keep. rewrite map_map. reflexivity. }
+  assert (Hk := rsum_pow_derive os f d p shift Hf). fold keep in Hk.
+  assert (Hr := rpower_comp_derive keep _ (1 / q) Hk Hkeep).
+  set (k' := rsum (map (fun o => p * Rpower (f o 0 + shift) (p - 1) * d o) os)) in *.
+  assert (Hm : is_derive (fun t => Rpower (keep t) (1 / q) - backshift) 0 (1 / q * Rpower (keep 0) (1 / q - 1) * k')).
+  { replace (1 / q * Rpower (keep 0) (1 / q - 1) * k') with (minus (1 / q * Rpower (keep 0) (1 / q - 1) * k') zero)
+      by (unfold minus, plus, opp, zero; cbn; ring).
+    apply (is_derive_minus (K := R_AbsRing) (V := R_NormedModule) (fun t => Rpower (keep t) (1 / q)) (fun _ => backshift));
+      [exact Hr | apply (is_derive_const (K := R_AbsRing) (V := R_NormedModule))]. }
+  replace (rsum (map (fun o => dmax_R p q shift backshift (Rpower (rsum (map (fun v => Rpower (v + shift) p) (map (fun o0 => f o0 0) os))) (1 / q) - backshift) (f o 0) * d o) os))
+    with (1 / q * Rpower (keep 0) (1 / q - 1) * k'); [exact Hm|].
+  unfold k'. rewrite rsum_scal. f_equal. apply map_ext. intros o. unfold dmax_R.
+  rewrite map_map. fold (keep 0).
+  replace (Rpower (keep 0) (1 / q) - backshift + backshift) with (Rpower (keep 0) (1 / q)) by ring.
+  assert (Ek : Rpower (Rpower (keep 0) (1 / q)) q = keep 0).
+  { rewrite Rpower_mult. replace (1 / q * q) with 1 by (field; exact Hq). apply Rpower_1. exact Hkeep. }
+  rewrite Ek.
+  field. exact Hq.
+Qed.
+
+(* the line x + t v *)
+Lemma get_line (x v : list R) t e : length x = length v ->
+  getT 0 (vadd x (vscale t v)) e = getT 0 x e + t * getT 0 v e.
+Proof.
+  intros Hl. unfold getT. generalize (Z.to_nat e) as i. revert v Hl. unfold vadd, vscale.
+  induction x as [|a x IH]; intros [|b v] Hl i; cbn in Hl; try discriminate.
+  - destruct i; cbn; ring.
+  - destruct i as [|i]; [cbn; ring|]. cbn [map combine nth fst snd]. apply IH. lia.
+Qed.
+
+Lemma line_length (x v : list R) t : length x = length v -> length (vadd x (vscale t v)) = length x.
+Proof. intros Hl. unfold vadd, vscale. rewrite map_length, combine_length, map_length. lia. Qed.
+
+Lemma line_0 (x v : list R) : length x = length v -> vadd x (vscale 0 v) = x.
+Proof.
+  unfold vadd, vscale. revert v; induction x as [|a x IH]; intros [|b v] Hl; cbn in Hl; try discriminate; auto.
+  cbn [map combine fst snd]. rewrite IH by lia. f_equal. cbn. ring.
+Qed.
+
+Lemma dot_derive (w : list R) : forall (Yf : R -> list R) (T : list R),
+  (forall t, length (Yf t) = length w) -> length T = length w ->
+  (forall i, (i < length w)%nat -> is_derive (fun t => nth i (Yf t) 0) 0 (nth i T 0)) ->
+  is_derive (fun t => dot w (Yf t)) 0 (dot w T).
+Proof.
+  induction w as [|a w IH]; intros Yf T HY HT Hd.
+  - apply (is_derive_const (K := R_AbsRing) (V := R_NormedModule) 0 0).
+  - destruct T as [|b T]; [discriminate|].
+    apply (is_derive_ext (fun t => a * nth 0 (Yf t) 0 + dot w (tl (Yf t)))).
+    { intros t. specialize (HY t). destruct (Yf t) as [|y ys]; [discriminate|]. reflexivity. }
+    change (dot (a :: w) (b :: T)) with (a * b + dot w T).
+    apply (is_derive_plus (K := R_AbsRing) (V := R_NormedModule) (fun t => a * nth 0 (Yf t) 0) (fun t => dot w (tl (Yf t)))).
+    + assert (H0 := Hd O ltac:(cbn; lia)). cbn [nth] in H0.
+      apply (is_derive_scal (fun t => nth 0 (Yf t) 0) 0 a b). exact H0.
+    + apply IH.
+      * intros t. specialize (HY t). destruct (Yf t); cbn in *; lia.
+      * cbn in HT. lia.
+      * intros i Hi. assert (Hi' := Hd (S i) ltac:(cbn; lia)). cbn [nth] in Hi'.
+        apply (is_derive_ext (fun t => nth (S i) (Yf t) 0)); [|exact Hi'].
+        intros t. specialize (HY t). destruct (Yf t); [discriminate|]. reflexivity.
+Qed.
+
+Lemma offsets_has_center nsamp : (2 <= nsamp)%Z -> In (0, 0)%Z (layer_offsets nsamp).
+Proof.
+  intros Hn. unfold layer_offsets. destruct (Z.to_nat nsamp) as [|[|k]] eqn:E; try lia.
+  cbn. right. left. reflexivity.
+Qed.
+
+Section Analytic.
+  Variables (g : grid) (dl dx nsamp : Z) (x v : list R) (eps p q shift backshift : R).
+  Hypothesis Hwf : wf g.
+  Hypothesis Hdl : (0 <= dl <= 2)%Z.
+  Hypothesis Hdx : dx = 1%Z \/ dx = (-1)%Z.
+  Hypothesis Hns : (2 <= nsamp)%Z.
+  Hypothesis Hx : Z.of_nat (length x) = nel g.
+  Hypothesis Hv : Z.of_nat (length v) = nel g.
+  Hypothesis Hq : q <> 0.
+
+  Let sminR := smin_R eps.
+  Let smaxR := smax_R p q shift backshift.
+  Let yp := fst (sweep2 sminR smaxR g dl dx nsamp x).       (* sig_out[0].state *)
+  Let sm := snd (sweep2 sminR smaxR g dl dx nsamp x).       (* self.smax *)
+  (* differentiability of the response at x: the radicand of the smooth minimum and the bases of the powers are positive *)
+  Hypothesis Hmin : forall e, (0 <= e < nel g)%Z -> 0 < (gk x e - gk sm e) * (gk x e - gk sm e) + eps.
+  Hypothesis Hpos : forall e, (0 <= e < nel g)%Z -> 0 < gk yp e + shift.
+
+  Let NL := nlay g dl.
+  Let offs := layer_offsets nsamp.
+  Let key := lkey g dl.
+  Let ph := phys g dl dx.
+  Let line := fun t => vadd x (vscale t v).
+  Let Yl := fun t l pp => print_spec sminR smaxR (n1 g dl) (n2 g dl) offs (xlay 0 g dl dx (line t)) l pp.
+  Let TSR := TS (dmin_x_R eps) (dmin_s_R eps) (dmax_R p q shift backshift) g dl dx nsamp x yp sm v v.
+
+  Lemma Hxv : length x = length v.
+  Proof. lia. Qed.
+
+  Lemma Y0_yp l pp : (Z.of_nat l < NL)%Z -> inl g dl pp -> Yl 0 l pp = gk yp (key (ph (Z.of_nat l)) pp).
+  Proof.
+    intros Hl Hp. unfold Yl, line. rewrite (line_0 x v Hxv). unfold yp. unfold key, ph.
+    rewrite (sweep2_xprint sminR smaxR g dl dx nsamp x Hwf Hdl Hdx Hx) by (auto; fold NL; lia).
+    rewrite Nat2Z.id. reflexivity.
+  Qed.
+
+  Lemma sm_char l pp : (Z.of_nat (S l) < NL)%Z -> inl g dl pp ->
+    gk sm (key (ph (Z.of_nat (S l))) pp) =
+    smaxR (map (fun o => Yl 0 l (padd pp o)) (filter (fun o => in_layer g dl (padd pp o)) offs)).
+  Proof.
+    intros Hl Hp. unfold sm, key, ph.
+    rewrite (sweep2_smax sminR smaxR g dl dx nsamp x Hwf Hdl Hdx Hx) by (auto; fold NL; lia).
+    unfold smax_below. replace (Z.to_nat (Z.of_nat (S l) - 1)) with l by lia.
+    unfold Yl, line. rewrite (line_0 x v Hxv). reflexivity.
+  Qed.
+
+  Lemma xlay_line_derive l pp : is_derive (fun t => xlay 0 g dl dx (line t) l pp) 0 (gk v (key (ph (Z.of_nat l)) pp)).
+  Proof.
+    unfold xlay, line.
+    apply (is_derive_ext (fun t => getT 0 x (coord g dl dx (Z.of_nat l) (fst pp) (snd pp)) + t * getT 0 v (coord g dl dx (Z.of_nat l) (fst pp) (snd pp)))).
+    { intros t. symmetry. apply get_line. exact Hxv. }
+    change (gk v (key (ph (Z.of_nat l)) pp)) with (getT 0 v (coord g dl dx (Z.of_nat l) (fst pp) (snd pp))).
+    auto_derive; [exact I | ring].
+  Qed.
+
+  Lemma spec_derive : forall l : nat, (Z.of_nat l < NL)%Z -> forall pp, inl g dl pp ->
+    is_derive (fun t => Yl t l pp) 0 (TSR l pp).
+  Proof.
+    induction l as [|l IH]; intros Hl pp Hp.
+    - unfold Yl. cbn [print_spec]. unfold TSR. cbn [TS]. apply (xlay_line_derive O pp).
+    - unfold Yl. cbn [print_spec]. fold Yl.
+      set (os := filter (fun o => inside (n1 g dl) (n2 g dl) (padd pp o)) offs).
+      assert (Hos : forall o, In o os -> inl g dl (padd pp o)).
+      { intros o Ho. apply filter_In in Ho as (_ & Ho). apply inside_iff in Ho. exact Ho. }
+      assert (Hf : forall o, In o os -> is_derive (fun t => Yl t l (padd pp o)) 0 (TSR l (padd pp o)) /\ 0 < Yl 0 l (padd pp o) + shift).
+      { intros o Ho. split; [apply IH; auto; lia|].
+        rewrite Y0_yp by (auto; lia). apply Hpos. apply lkey_range; auto. apply physr; auto. fold NL. lia. }
+      assert (Hkeep : 0 < rsum (map (fun o => Rpower (Yl 0 l (padd pp o) + shift) p) os)).
+      { rewrite <- (map_map (fun o => Yl 0 l (padd pp o)) (fun u => Rpower (u + shift) p)). apply rsum_pow_pos.
+        assert (Hc : In (0, 0)%Z os).
+        { apply filter_In. split; [apply offsets_has_center; auto|]. apply inside_iff. destruct pp as (a, b), Hp as (Ha & Hb).
+          unfold padd; cbn [fst snd] in *. lia. }
+        intros E. apply (in_map (fun o => Yl 0 l (padd pp o))) in Hc. rewrite E in Hc. destruct Hc. }
+      assert (Hs := smax_derive os (fun o t => Yl t l (padd pp o)) (fun o => TSR l (padd pp o)) p q shift backshift Hq Hf Hkeep).
+      assert (Ha := xlay_line_derive (S l) pp).
+      assert (Esm : smaxR (map (fun o => Yl 0 l (padd pp o)) os) = gk sm (key (ph (Z.of_nat (S l))) pp)).
+      { symmetry. apply sm_char; auto. }
+      assert (Ex0 : xlay 0 g dl dx (line 0) (S l) pp = gk x (key (ph (Z.of_nat (S l))) pp)).
+      { unfold line. rewrite (line_0 x v Hxv). reflexivity. }
+      assert (Hmin' : 0 < (xlay 0 g dl dx (line 0) (S l) pp - smaxR (map (fun o => Yl 0 l (padd pp o)) os)) *
+                          (xlay 0 g dl dx (line 0) (S l) pp - smaxR (map (fun o => Yl 0 l (padd pp o)) os)) + eps).
+      { rewrite Esm, Ex0. apply Hmin. apply lkey_range; auto. apply physr; auto. fold NL. lia. }
+      assert (Hd := smin_derive eps (fun t => xlay 0 g dl dx (line t) (S l) pp)
+                       (fun t => smaxR (map (fun o => Yl t l (padd pp o)) os)) _ _ Ha Hs Hmin').
+      cbv beta in Hd. unfold smaxR in Hd at 1. fold smaxR in Hd. rewrite Esm, Ex0 in Hd.
+      replace (TSR (S l) pp) with
+        (dmin_x_R eps (gk x (key (ph (Z.of_nat (S l))) pp)) (gk sm (key (ph (Z.of_nat (S l))) pp)) * gk v (key (ph (Z.of_nat (S l))) pp) +
+         dmin_s_R eps (gk x (key (ph (Z.of_nat (S l))) pp)) (gk sm (key (ph (Z.of_nat (S l))) pp)) *
+           rsum (map (fun o => dmax_R p q shift backshift (gk sm (key (ph (Z.of_nat (S l))) pp)) (Yl 0 l (padd pp o)) * TSR l (padd pp o)) os)).
+      { exact Hd. }
+      symmetry. unfold TSR at 1. cbn [TS]. fold TSR. fold key. fold ph. cbn [nadd nmul NumR].
+      f_equal. f_equal. change (@nsum R NumR) with rsum. apply (f_equal rsum).
+      change (filter (fun o => in_layer g dl (padd pp o)) (layer_offsets nsamp)) with os.
+      apply map_ext_in. intros o Ho. f_equal. f_equal.
+      rewrite Y0_yp by (auto; try lia; apply Hos; exact Ho).
+      assert (EL : (ph (Z.of_nat (S l)) - dx)%Z = ph (Z.of_nat l)).
+      { unfold ph. rewrite phys_pred by auto. f_equal. lia. }
+      rewrite EL. reflexivity.
+  Qed.
+  Let tan := tangent_sweep (dmin_x_R eps) (dmin_s_R eps) (dmax_R p q shift backshift) g dl dx nsamp x yp sm v.
+
+  Lemma line_len t : Z.of_nat (length (line t)) = nel g.
+  Proof. unfold line. rewrite line_length by exact Hxv. exact Hx. Qed.
+
+  Lemma tan_length : length tan = length v.
+  Proof.
+    unfold tan, tangent_sweep, tangent_from. rewrite (up_loop_layers g dl dx Hwf Hdl Hdx).
+    generalize (lays g dl dx 1 (Z.to_nat (nlay g dl - 1))) as ls. generalize v at 2 3 as t0.
+    intros t0 ls; revert t0; induction ls as [|L ls IHl]; intros t0; cbn [fold_left]; auto.
+    rewrite IHl. unfold tangent_step. apply scatter_length.
+  Qed.
+
+  (* every entry of the tangent sweep is the derivative of the corresponding entry of the response along x + t v *)
+  Theorem tangent_is_derivative e : (0 <= e < nel g)%Z ->
+    is_derive (fun t => getT 0 (sweep sminR smaxR 0 g dl dx nsamp (line t)) e) 0 (getT 0 tan e).
+  Proof.
+    intros He. destruct (sweep_elem g dl dx e Hwf Hdl He) as (l & a & b & Hl & Ha & Hb & <-).
+    apply (is_derive_ext (fun t => Yl t (Z.to_nat l) (a, b))).
+    { intros t. symmetry. apply (sweep_refines_spec sminR smaxR 0 g dl dx nsamp (line t) Hwf Hdl Hdx (line_len t)); auto. }
+    replace (getT 0 tan (coord g dl dx l a b)) with (TSR (Z.to_nat l) (a, b)).
+    { apply spec_derive; [fold NL in Hl; lia | split; auto]. }
+    unfold tan, tangent_sweep, tangent_from. rewrite (up_loop_layers g dl dx Hwf Hdl Hdx).
+    change (coord g dl dx l a b) with (lkey g dl (phys g dl dx l) (a, b)).
+    pose proof (nlay_pos g dl Hwf Hdl) as Hpos1.
+    assert (E := tangent_inv (dmin_x_R eps) (dmin_s_R eps) (dmax_R p q shift backshift) g dl dx nsamp Hwf Hdl Hdx
+                   x yp sm v v Hv (Z.to_nat (nlay g dl - 1)) ltac:(lia) l (a, b) Hl (conj Ha Hb)).
+    replace (l <=? Z.of_nat (Z.to_nat (nlay g dl - 1)))%Z with true in E by (symmetry; apply Z.leb_le; lia).
+    symmetry. exact E.
+  Qed.
+
+  (* (C) the module: for every seed w, <sensitivity, v> is the derivative of <w, response(x + t v)> at t = 0 *)
+  Theorem sensitivity_is_adjoint_derivative (w : list R) : Z.of_nat (length w) = nel g ->
+    is_derive (fun t => dot w (sweep sminR smaxR 0 g dl dx nsamp (line t))) 0
+              (dot (sens_sweep (dmin_x_R eps) (dmin_s_R eps) (dmax_R p q shift backshift) g dl dx nsamp x yp sm w) v).
+  Proof.
+    intros Hw.
+    rewrite <- (sens_sweep_adjoint num_ring_R (dmin_x_R eps) (dmin_s_R eps) (dmax_R p q shift backshift) g dl dx nsamp
+                  Hwf Hdl Hdx x yp sm v Hv w Hw).
+    fold tan. apply dot_derive.
+    - intros t. rewrite (sweep_length sminR smaxR 0 g dl dx nsamp (line t) Hwf Hdl Hdx (line_len t)).
+      pose proof (line_len t). lia.
+    - rewrite tan_length. lia.
+    - intros i Hi.
+      assert (E := tangent_is_derivative (Z.of_nat i) ltac:(lia)). unfold getT in E. rewrite Nat2Z.id in E. exact E.
+  Qed.
+End Analytic.
+
+(* ---------------------------------------------------------------------------------------------- *)
+(* statements in the form used by Props/C01c.v                                                      *)
+
+(* sufficient conditions for differentiability that do not mention the computed arrays:
+   eps > 0 (radicand of the smooth minimum) and x >= 0, 0 <= backshift < shift (bases of the powers) *)
+Theorem overhang_adjoint_eps_pos g dl dx nsamp (x v w : list R) eps p q shift backshift :
+  wf g -> (0 <= dl <= 2)%Z -> dx = 1%Z \/ dx = (-1)%Z -> (2 <= nsamp)%Z ->
+  Z.of_nat (length x) = nel g -> Z.of_nat (length v) = nel g -> Z.of_nat (length w) = nel g ->
+  0 < eps -> q <> 0 -> 0 <= backshift < shift -> List.Forall (fun u => 0 <= u) x ->
+  is_derive (fun t => dot w (sweep (smin_R eps) (smax_R p q shift backshift) 0 g dl dx nsamp (vadd x (vscale t v)))) 0
+            (dot (sens_sweep (dmin_x_R eps) (dmin_s_R eps) (dmax_R p q shift backshift) g dl dx nsamp x
+                    (fst (sweep2 (smin_R eps) (smax_R p q shift backshift) g dl dx nsamp x))
+                    (snd (sweep2 (smin_R eps) (smax_R p q shift backshift) g dl dx nsamp x)) w) v).
+Proof.
+  intros Hwf Hdl Hdx Hns Hx Hv Hw Heps Hq Hbs Hx0.
+  apply (sensitivity_is_adjoint_derivative g dl dx nsamp x v eps p q shift backshift Hwf Hdl Hdx Hns Hx Hv Hq); auto.
+  - intros e He. set (r := gk x e - gk _ e). nra.
+  - intros e He. rewrite (fst_sweep2 (smin_R eps) (smax_R p q shift backshift) g dl dx nsamp x).
+    assert (Hl := sweep_lower g dl dx nsamp x eps Hwf Hdl Hdx Hx ltac:(lra) p q shift backshift Hbs e Hx0 He).
+    unfold gk. change (@nzero R NumR) with 0. lra.
+Qed.
+
+(* the module with a direction vector: dir_layer / dx_layer of an axis-aligned vector of any non-zero length *)
+Lemma sensitivity_axis {K : Type} `{Num K} (smin : K -> K -> K) (smax : list K -> K) (dmin_x dmin_s dmax : K -> K -> K)
+      g axis c nsamp (x w : list K) :
+  (0 <= axis <= 2)%Z -> ~ (c == 0)%Q ->
+  sensitivity smin smax dmin_x dmin_s dmax g (axis_vec 3 axis c) nsamp x w =
+  sens_sweep dmin_x dmin_s dmax g axis (qsign c) nsamp x
+             (fst (sweep2 smin smax g axis (qsign c) nsamp x)) (snd (sweep2 smin smax g axis (qsign c) nsamp x)) w.
+Proof.
+  intros Hax Hc. unfold sensitivity.
+  destruct (parse_vectors 3 3 axis c (or_intror eq_refl) (or_intror eq_refl) ltac:(lia) Hc) as (_ & _ & -> & ->).
+  reflexivity.
+Qed.
+
+Theorem overhang_module_adjoint g axis c nsamp (x v w : list R) eps p q shift backshift :
+  wf g -> (0 <= axis <= 2)%Z -> ~ (c == 0)%Q -> (2 <= nsamp)%Z ->
+  Z.of_nat (length x) = nel g -> Z.of_nat (length v) = nel g -> Z.of_nat (length w) = nel g ->
+  0 < eps -> q <> 0 -> 0 <= backshift < shift -> List.Forall (fun u => 0 <= u) x ->
+  is_derive (fun t => dot w (response (smin_R eps) (smax_R p q shift backshift) 0 g (axis_vec 3 axis c) nsamp (vadd x (vscale t v)))) 0
+            (dot (sensitivity (smin_R eps) (smax_R p q shift backshift) (dmin_x_R eps) (dmin_s_R eps) (dmax_R p q shift backshift)
+                              g (axis_vec 3 axis c) nsamp x w) v).
+Proof.
+  intros Hwf Hax Hc Hns Hx Hv Hw Heps Hq Hbs Hx0.
+  rewrite sensitivity_axis by auto.
+  apply (is_derive_ext (fun t => dot w (sweep (smin_R eps) (smax_R p q shift backshift) 0 g axis (qsign c) nsamp (vadd x (vscale t v))))).
+  { intros t. rewrite response_axis by auto. reflexivity. }
+  apply overhang_adjoint_eps_pos; auto. apply (qsign_cases c Hc).
+Qed.
+
+(* one layer in print direction: the seed is returned as it is (and the response is the identity: C14) *)
+Lemma sens_single_layer {K : Type} `{Num K} (dmin_x dmin_s dmax : K -> K -> K) g dl dx nsamp (x yp sm w : list K) :
+  nlay g dl = 1%Z -> sens_sweep dmin_x dmin_s dmax g dl dx nsamp x yp sm w = w.
+Proof. intros E. unfold sens_sweep. rewrite E. reflexivity. Qed.
+
+(* the default parameters (p = 40, xi_0 = 0.5, eps = 1e-4, float64) meet the conditions, for nsampling 3, 5, 9 *)
+Lemma default_params_differentiable n : n = 3 \/ n = 5 \/ n = 9 ->
+  let q := q_of 40 n (1 / 2) in
+  let s := shift_of 40 dbl_tiny in
+  let b := backshift_of n 40 q s in
+  0 < 1 / 10000 /\ q <> 0 /\ 0 <= b < s.
+Proof.
+  intros Hn. destruct (default_params n Hn) as (Hq & Hs & Hb & _). cbv zeta. repeat split; try lra; tauto.
+Qed.
+
+(* a concrete instance of the hypotheses of overhang_module_adjoint (non-vacuity) *)
+Lemma hypotheses_met_example :
+  wf {| nelx := 2; nely := 3; nelz := 0 |} /\ (0 <= 1 <= 2)%Z /\ ~ (1 == 0)%Q /\ (2 <= 3)%Z /\
+  Z.of_nat (length [1; 0; 1 / 2; 1; 1 / 4; 0]) = nel {| nelx := 2; nely := 3; nelz := 0 |} /\
+  List.Forall (fun u => 0 <= u) [1; 0; 1 / 2; 1; 1 / 4; 0].
+Proof.
+  split; [unfold wf; cbn; lia|]. split; [lia|]. split; [discriminate|]. split; [lia|]. split; [reflexivity|].
+  repeat constructor; lra.
+Qed.
